@@ -16,10 +16,11 @@ enum Op {
   kOpGraphClear, // Graph::clear() + rebuild -> setAll or ForwardPropagator -> run
   kOpSubgraphsClear, // Graph::clearSubgraphs() + rebuild
   kOpMarkThenAll, // C31: mark, (propagate,) then setAllNodesIncomplete: full evaluation
+  kOpThrow, // full evaluation in which 1-2 chosen nodes throw; then setAll + run on the SAME executor object; then on a fresh one
   kNumOps
 };
 static const char* const kOpNames[kNumOps] = {"full", "partial", "noop", "fp-noop", "clear-fp", "clear-setall", "add-fp",
-                                              "add-setall", "move-ctor", "move-assign", "graph-clear", "subgraphs-clear", "mark-then-setall"};
+                                              "add-setall", "move-ctor", "move-assign", "graph-clear", "subgraphs-clear", "mark-then-setall", "throw"};
 
 template <class G>
 struct Prog {
@@ -522,32 +523,32 @@ struct Prog {
       case kParForTS:
         if (e.fresh) {
           dispenso::ParallelForExecutor x;
-          x(env.ts, *g);
-        } else env.pfe(env.ts, *g);
+          x(*env.ts, *g);
+        } else env.pfe(*env.ts, *g);
         break;
       case kParForCTS:
         if (e.fresh) {
           dispenso::ParallelForExecutor x;
-          x(env.cts, *g);
-        } else env.pfe(env.cts, *g);
+          x(*env.cts, *g);
+        } else env.pfe(*env.cts, *g);
         break;
       case kCtsWait:
         if (e.fresh) {
           dispenso::ConcurrentTaskSetExecutor x;
-          x(env.cts, *g, true, env.lf);
-        } else if (env.lf == 3.0f && e.defaults) env.cte(env.cts, *g); // all defaults
-        else env.cte(env.cts, *g, true, env.lf);
+          x(*env.cts, *g, true, env.lf);
+        } else if (env.lf == 3.0f && e.defaults) env.cte(*env.cts, *g); // all defaults
+        else env.cte(*env.cts, *g, true, env.lf);
         break;
       default: {
         if (e.fresh) {
           dispenso::ConcurrentTaskSetExecutor x;
-          x(env.cts, *g, false, env.lf);
+          x(*env.cts, *g, false, env.lf);
           if (e.spin) vrt::spinFor(e.spin);
-          env.cts.wait();
+          env.cts->wait();
         } else {
-          env.cte(env.cts, *g, false, env.lf);
+          env.cte(*env.cts, *g, false, env.lf);
           if (e.spin) vrt::spinFor(e.spin);
-          env.cts.wait();
+          env.cts->wait();
         }
         break;
       }
@@ -563,12 +564,16 @@ struct Prog {
   };
 
   // exact: compare with MNode::expect (C31); otherwise with the incomplete set read before the run (C30)
-  void execAndCheck(bool exact, const std::string& sub31) {
-    const ExecPlan plan = planExec();
+  // throwers non-null: a throwing execution (the listed nodes' bodies throw GraphThrow); then only
+  // what dispenso promises for an aborted execution is judged.  Returns the executor form used.
+  int execAndCheck(bool exact, const std::string& sub31, int forceKind = -1, int forceFresh = -1, const std::vector<MNode*>* throwers = nullptr) {
+    ExecPlan plan = planExec();
+    if (forceKind >= 0) plan.kind = forceKind;
+    if (forceFresh >= 0) plan.fresh = forceFresh != 0;
     const int kind = plan.kind;
     if (dry) {
       for (auto& m : nodes) m->inc = false; // model: an execution leaves every node complete
-      return;
+      return kind;
     }
     resetMonitors();
     long nPre = 0, nAlive = 0;
@@ -580,6 +585,10 @@ struct Prog {
     }
     st.h(static_cast<uint64_t>(kind) + 31 * static_cast<uint64_t>(nPre));
     vrt::progress(); // harness-side progress at step boundaries: a flat period is then inside one dispenso call
+    if (throwers) {
+      checkThrowingExec(plan, *throwers, nPre, nAlive);
+      return kind;
+    }
     runExecutor(plan);
     vrt::progress();
     for (auto& m : nodes) m->inc = false;
@@ -644,6 +653,72 @@ struct Prog {
     rep(notDone, "executed node is not complete afterwards", other, "");
     rep(lostComplete, "node that was complete and was not run is incomplete after the execution", other, "");
     rep(stillRunning, "node body still running after the executor returned / after wait()", other, "");
+    return kind;
+  }
+
+  // An execution in which the nodes in `throwers` throw.  Promised and therefore judged: the call
+  // (or the task set's wait()) hands the exception out, no node runs twice, no complete node runs,
+  // a node that ran had every incomplete predecessor run and finish first, and once the task sets
+  // have been waited on nothing is still running.  Not judged: which nodes did not run, completeness.
+  void checkThrowingExec(const ExecPlan& plan, const std::vector<MNode*>& throwers, long nPre, long nAlive) {
+    Env& env = *envp;
+    for (MNode* t : throwers) t->throwNow = true;
+    int caught = 0;
+    try {
+      runExecutor(plan);
+    } catch (const GraphThrow&) {
+      ++caught;
+    }
+    caught += env.drainTaskSets(); // nothing of the aborted run is in flight after this
+    vrt::progress();
+    for (MNode* t : throwers) t->throwNow = false;
+    env.newTaskSets(); // a task set that captured an exception stays cancelled
+    ++st.execs;
+    st.classes.insert(std::string("exec:") + kExecNames[plan.kind]);
+    st.classes.insert(std::string("throw:") + kExecNames[plan.kind]);
+    Bad twice, ranComplete, order, predNotRun, stillRunning;
+    long ran = 0, throwersRan = 0;
+    for (auto& mp : nodes) {
+      MNode* m = mp.get();
+      if (!m->alive) continue;
+      const uint32_t runs = m->runs.load(std::memory_order_relaxed);
+      if (!runs) continue;
+      ++ran;
+      if (runs > 1) twice.add(m->id);
+      if (!m->pre) ranComplete.add(m->id);
+      if (m->end.load(std::memory_order_relaxed) == 0) stillRunning.add(m->id);
+      const uint64_t s = m->start.load(std::memory_order_relaxed);
+      for (MNode* q : m->preds) {
+        if (!q->pre) continue;
+        if (q->runs.load(std::memory_order_relaxed) == 0) {
+          predNotRun.add(m->id);
+          continue;
+        }
+        const uint64_t e = q->end.load(std::memory_order_relaxed);
+        if (e == 0 || e > s) order.add(m->id);
+      }
+    }
+    for (MNode* t : throwers) {
+      if (t->runs.load(std::memory_order_relaxed)) ++throwersRan;
+    }
+    st.nodesRun += ran;
+    if (throwersRan) st.classes.insert("throwing-step");
+    if (throwersRan && ran < nPre) st.classes.insert("throw-aborted-early");
+    J base;
+    base.kv("executor", kExecNames[plan.kind]).kv("aliveNodes", nAlive).kv("incompleteBefore", nPre).kv("ran", ran).kv("throwersRan", throwersRan).kv("caught", caught);
+    auto rep = [&](const Bad& b, const std::string& msg) {
+      if (!b.n) return;
+      J d = base;
+      d.kv("count", b.n).arr("nodes", b.ids);
+      report(msg, d);
+    };
+    if (throwersRan && caught == 0) report("a node functor threw but neither the executor call nor the task set's wait() rethrew", base);
+    if (!throwersRan && caught) report("tagged exception rethrown although no throwing node ran", base);
+    rep(twice, "node run more than once in one (throwing) execution");
+    rep(ranComplete, "already-complete node was run");
+    rep(predNotRun, "node ran although an incomplete predecessor never ran");
+    rep(order, "node started before an incomplete predecessor finished");
+    rep(stillRunning, "node body still running after the task sets of the aborted execution were waited on");
   }
 
   // ---------------------------------------------------------------- steps
@@ -704,6 +779,31 @@ struct Prog {
         } else if (r.chance(0.7)) setAll();
         else viaFp = true;
         break;
+      case kOpThrow: {
+        // 1. full evaluation on the persistent executor object in which 1 (sometimes 2) nodes throw
+        setAll();
+        std::vector<MNode*> A = aliveSorted();
+        std::vector<MNode*> throwers;
+        const int want = r.chance(0.15) ? 2 : 1;
+        for (int i = 0; i < want && !A.empty(); ++i) {
+          MNode* t = A[r.below(A.size())];
+          if (std::find(throwers.begin(), throwers.end(), t) == throwers.end()) throwers.push_back(t);
+        }
+        for (MNode* t : throwers) st.h(static_cast<uint64_t>(t->id) * 7919);
+        const int kind = execAndCheck(false, "", -1, 0, &throwers);
+        if (stop) return;
+        // 2. reset, then a normal execution on the SAME executor object: the usual oracle
+        curOp = "after-throw-same-executor";
+        setAll();
+        execAndCheck(false, "", kind, 0);
+        if (!dry && !throwers.empty()) st.classes.insert("executor-reused-after-throw");
+        if (stop) return;
+        // 3. and on a fresh executor object
+        curOp = "after-throw-fresh-executor";
+        setAll();
+        execAndCheck(false, "", kind, 1);
+        return;
+      }
       case kOpGraphClear:
       case kOpSubgraphsClear:
         if (op == kOpGraphClear) opGraphClear();
@@ -810,16 +910,17 @@ void runProgram(vrt::Rng& r, const CaseParams& p, bool prop31, StepStats& st, bo
         pr.step31(pickWeighted(r, ops, w, 5));
         continue;
       }
-      static const int ops[] = {kOpFull,   kOpPartial, kOpNoop,     kOpFpNoop,     kOpClearFp,    kOpClearAll,
-                                kOpAddFp,  kOpAddAll,  kOpMoveCtor, kOpMoveAssign, kOpGraphClear, kOpSubgraphsClear};
-      static const int wBasic[] = {25, 55, 10, 10, 0, 0, 0, 0, 0, 0, 0, 0};
-      static const int wClear[] = {8, 20, 2, 0, 45, 25, 0, 0, 0, 0, 0, 0};
-      static const int wAdd[] = {8, 20, 2, 0, 0, 0, 50, 20, 0, 0, 0, 0};
-      static const int wMove[] = {5, 20, 0, 0, 10, 5, 0, 0, 30, 30, 0, 0};
-      static const int wGclear[] = {5, 20, 0, 0, 10, 5, 5, 0, 0, 0, 30, 25};
-      static const int wMix[] = {8, 20, 3, 3, 14, 8, 10, 6, 8, 8, 6, 6};
-      const int* w = p.theme == 0 ? wBasic : p.theme == 1 ? wClear : p.theme == 2 ? wAdd : p.theme == 3 ? wMove : p.theme == 4 ? wGclear : wMix;
-      pr.step30(pickWeighted(r, ops, w, 12));
+      static const int ops[] = {kOpFull,  kOpPartial, kOpNoop,     kOpFpNoop,     kOpClearFp,    kOpClearAll,      kOpAddFp,
+                                kOpAddAll, kOpMoveCtor, kOpMoveAssign, kOpGraphClear, kOpSubgraphsClear, kOpThrow};
+      static const int wBasic[] = {25, 55, 10, 10, 0, 0, 0, 0, 0, 0, 0, 0, 0};
+      static const int wClear[] = {8, 20, 2, 0, 45, 25, 0, 0, 0, 0, 0, 0, 0};
+      static const int wAdd[] = {8, 20, 2, 0, 0, 0, 50, 20, 0, 0, 0, 0, 0};
+      static const int wMove[] = {5, 20, 0, 0, 10, 5, 0, 0, 30, 30, 0, 0, 0};
+      static const int wGclear[] = {5, 20, 0, 0, 10, 5, 5, 0, 0, 0, 30, 25, 0};
+      static const int wMix[] = {8, 20, 3, 3, 14, 8, 10, 6, 8, 8, 6, 6, 12};
+      static const int wThrow[] = {10, 25, 0, 0, 10, 0, 5, 0, 0, 0, 0, 0, 50};
+      const int* w = p.theme == 0 ? wBasic : p.theme == 1 ? wClear : p.theme == 2 ? wAdd : p.theme == 3 ? wMove : p.theme == 4 ? wGclear : p.theme == 5 ? wMix : wThrow;
+      pr.step30(pickWeighted(r, ops, w, 13));
     }
     if (pr.mergedExisting) st.classes.insert("merged-sets");
     // graph (and every node functor) destroyed here, before the task sets and the pool
